@@ -21,6 +21,7 @@ def tally(prefix):
         final_ok += any(t["result"].startswith("CAUGHT") for t in tr)
     return tot, first_ok, final_ok
 r1, r2, r3, r4, r5, r6 = tally("C*-*"), tally("R2-C*-*"), tally("R3-C*-*"), tally("R4-C*-*"), tally("R5-C*-*"), tally("R6-C*-*")
+r7 = tally("R7-C*-*")
 summary = f"""Round 1 (`C??-n`, two changes per property, free choice of defect): {r1[0]} changes, {r1[1]} caught at the
 first trial, {r1[2]} caught after strengthening. Round 2 (`R2-C??-n`, two more per property; the agents were
 asked for defects that need *scale, a long history or an unusual-but-legal input* to manifest, because
@@ -48,7 +49,18 @@ failed load, content-keyed regex cache), which is why most were caught at once. 
 round 1's prompt word for word (free choice) against the final checks, as a before/after measurement:
 {r6[0]} changes, {r6[1]} caught at the first trial (round 1: {r1[1]} of {r1[0]}), {r6[2]} after strengthening (whole-URL
 prefix families, a failing reload in C07's histories, the normalised URL compared as a whole, negated types in
-C14, a dense cosmetic phase in C19). Apart from those two oracle weaknesses every miss was a generator-reach problem (sizes, depths,
+C14, a dense cosmetic phase in C19). Round 7 (`R7-C??-n`) asked for *representation* defects: changes in
+the code that turns text into the internal form (parsers, masks, hashes, ids, (de)serializers) such that the
+library still agrees with itself - exactly the class that differential oracles and oracles built on the
+library's own parse cannot see: {r7[0]} changes, {r7[1]} caught at the first trial, {r7[2]} after strengthening. Two of
+them cannot be caught by the check of the property they were written against, by construction (R7-C01-2
+changes how `domain=www.x` is parsed, which "engine == evaluation of the parsed rules" shares; R7-C16-2 is an
+argument-encoding defect): they are caught by C03 and C18, which own those semantics. The rest needed
+spellings nobody generated (`www.` domain entries, mixed-case tags, `document` next to another type, `=` inside
+a directive, combinators without spaces, escaped `-` inside a regex class, padding other than a space between
+scriptlet arguments, a query directly after the host), option order rotation in C14/C15, and one more
+oracle-independence repair: C13's store model had been given the library's own reading of the resource kind.
+Apart from those oracle weaknesses (C13, C14, C15) every miss was a generator-reach problem (sizes, depths,
 lengths, histories, entry points, spellings); each strengthening widened the generated domain and was followed
 by a multi-seed silence run on the unchanged tree.
 
